@@ -519,6 +519,44 @@ def r06_6(prog, tab):
     return r
 
 
+def r06_7(prog, tab, rid="R06.7"):
+    """DEFAULT elimination does not depend on how the member is stored.  Whether a DEFAULT member is an inline field or a
+    pointer is a code-generation choice (-fwide-types, try_inline_default), not a property of the value; the canonical
+    form may not depend on it.  In every function that calls `default_value_cmp`: for each test of ATF_POINTER, if one
+    arm reaches a default_value_cmp call before the next storage test, so does the other arm."""
+    r = Rule(rid, "in the member passes, DEFAULT elimination (default_value_cmp) is reached from both arms of every ATF_POINTER storage test", floor=6)
+    enc = common.slot_functions(prog, common.ENCODER_SLOTS)
+    for f in sorted(prog.funcs.values(), key=lambda f: f.key):
+        cmp_blocks = {b.id for b, i, e in f.calls() if e.get("slot") == "default_value_cmp"}
+        if not cmp_blocks:
+            continue
+        if f.key not in enc and f.name not in tab["member_loop_functions"]:
+            # SEQUENCE_compare asks the question only where one side is absent, which only a pointer member can be
+            continue
+        tests = []
+        for b in f.blocks.values():
+            if b.term and "cond" in b.term and len(b.succ) >= 2 and None not in b.succ[:2]:
+                ct = b.term["cond"].get("full_tree") or b.term["cond"]["tree"]
+                if any(n[0] == "enum" and n[1] == "ATF_POINTER" for n in walk(b.term["cond"]["tree"])):
+                    tests.append(b)
+        tids = {b.id for b in tests}
+        n = 0
+        for b in sorted(tests, key=lambda b: b.id):
+            arms = []
+            for s_ in b.succ[:2]:
+                reach = f.reachable_from([s_], stop=lambda bid: bid in tids)
+                arms.append(bool(reach & cmp_blocks) or s_ in cmp_blocks)
+            n += 1
+            key = "storage-test#%d" % n
+            line = b.term.get("line")
+            if arms[0] == arms[1]:
+                r.ok(f, key, "both arms %s a default_value_cmp call before the next storage test" % ("reach" if arms[0] else "do not reach"), line, nontrivial=arms[0])
+            else:
+                r.bad(f, key, "only the %s arm of this ATF_POINTER test reaches the default_value_cmp call: a member equal to its DEFAULT is dropped "
+                              "or kept depending on how the C structure stores it" % ("pointer" if arms[0] else "inline"), line)
+    return r
+
+
 def _reaches(f, cb, b):
     return b.id in f.reachable_from([cb.id])
 
@@ -526,7 +564,7 @@ def _reaches(f, cb, b):
 def run(ctx):
     prog = ctx.prog("S")
     tab = load_tables("c06")
-    return [r06_1(prog, tab), r06_1b(prog, tab), r06_1c(prog, tab), r06_2(prog, tab), r06_3(prog, tab), r06_4(prog, tab), r06_4b(prog, tab), r06_5(prog, tab), r06_6(prog, tab)]
+    return [r06_1(prog, tab), r06_1b(prog, tab), r06_1c(prog, tab), r06_2(prog, tab), r06_3(prog, tab), r06_4(prog, tab), r06_4b(prog, tab), r06_5(prog, tab), r06_6(prog, tab), r06_7(prog, tab)]
 
 
 def thorough(ctx):
